@@ -42,6 +42,15 @@ def eval (fn : String) (args : List String) (impl : String) : Option Verdict := 
     pure { model := "alive",
            propFails := if impl == "alive" then [] else
              [s!"C18 burst ({String.intercalate " " args}): the UPF stopped answering ({impl}) sig={if known then "wedge:perioLoop" else "wedge:below-queue-sizes"}"] }
+  | "wedge.create" =>
+    -- one timer event per created URR: as long as the establishment creates no more periodic URRs than the periodic server's
+    -- queue holds, the loop finishes its turn whatever the tick does meanwhile
+    let num (k : String) : Nat := (args.findSome? fun a => if a.startsWith (k ++ "=") then ((a.drop (k.length + 1)).toString).toNat? else none).getD 0
+    let evtCap := (chanCaps.lookup "perio.Server.evtCh").getD 0
+    let known := num "urrs" > evtCap
+    pure { model := "alive",
+           propFails := if impl == "alive" then [] else
+             [s!"C18 establishment of {num "urrs"} periodic URRs while a tick reports {num "sessions"} sessions ({String.intercalate " " args}): the UPF stopped answering ({impl}) sig={if known then "wedge:perioLoop" else "wedge:create-below-queue-size"}"] }
   | "wedge.tickrace" =>
     -- one session, a handful of events: far below every queue size, nothing here may stop the loop
     pure { model := "alive",
